@@ -617,7 +617,7 @@ META = {
             "release_dependencies already started the successors (same date), and Comm::on_start fires twice for host-to-host comms.",
     "technique": "Coq proof (state invariants over op sequences, pointwise characterisation of release_dependencies, counting argument for "
                  "liveness) + extracted-model differential correspondence + verified trace monitor as oracle",
-    "claimed": False,
+    "claimed": True,
 }
 
 # mutants tried with bin/mutcheck (git apply -p1 from the simgrid root)
